@@ -18,6 +18,7 @@ import (
 	"time"
 
 	"github.com/anishathalye/porcupine"
+	"github.com/rqlite/rqlite/v10/store"
 	"github.com/rqlite/rqlite/v10/vexport"
 	"verif/internal/hcluster"
 	"verif/internal/vf"
@@ -443,8 +444,13 @@ func runHistory(c *vf.Ctx, caseNo int, dir string) (h histOut) {
 	cl := hcluster.New(dir)
 	defer cl.Close()
 	cl.HTTP.Timeout = 4 * time.Second
+	// A long commit timeout makes followers learn the commit index late, which
+	// widens the window in which a newly elected leader does not yet know that
+	// acknowledged writes are committed.
+	commitTimeout := []time.Duration{0, 200 * time.Millisecond, 600 * time.Millisecond}[r.IntN(3)]
 	opt := func(id string) hcluster.Options {
-		return hcluster.Options{ID: id, HeartbeatTimeout: 400 * time.Millisecond, ElectionTimeout: 400 * time.Millisecond, LeaderLease: 300 * time.Millisecond, NoSnapshotOnClose: true}
+		return hcluster.Options{ID: id, HeartbeatTimeout: 400 * time.Millisecond, ElectionTimeout: 400 * time.Millisecond, LeaderLease: 300 * time.Millisecond, NoSnapshotOnClose: true,
+			Tune: func(st *store.Store) { st.CommitTimeout = commitTimeout }}
 	}
 	for i := 1; i <= nNodes; i++ {
 		if _, err := cl.Add(opt(fmt.Sprintf("n%d", i)), true); err != nil {
@@ -550,7 +556,21 @@ func runHistory(c *vf.Ctx, caseNo int, dir string) (h histOut) {
 		noteLeader()
 		names := cl.Names()
 		ld := cl.Leader()
-		switch r.IntN(12) {
+		switch r.IntN(15) {
+		case 12, 13, 14: // the leader disappears while the rest of the cluster is slow
+			if ld != nil {
+				d := time.Duration(80+r.IntN(200)) * time.Millisecond
+				fault(fmt.Sprintf("isolate-leader-under-lag:%s:%s", ld.Name, d), func() {
+					for _, a := range names {
+						for _, b := range names {
+							if a != b && a != ld.Name && b != ld.Name {
+								cl.Net.SetDelay(a, b, d)
+							}
+						}
+					}
+					cl.Net.Isolate(ld.Name, names)
+				})
+			}
 		case 9: // slow applies: entries stay committed-but-unapplied for a while
 			d := time.Duration(5+r.IntN(50)) * time.Millisecond
 			fault(fmt.Sprintf("hook-sleep:fsm.apply.entry:%s", d), func() { vexport.HookSetDelay("fsm.apply.entry", d) })
